@@ -176,7 +176,7 @@ def write_cases(cases, wd, shards):
             w += 40 * max(1, len(sw.get("ops", []))) * max(1, len(sw.get("conts", [])))
         return w * (1 + len(c.get("wit", [])))
     total = sum(weight(c) for c in cases)
-    shards = max(1, min(max(shards, total // 40000 + 1), len(cases)))
+    shards = max(1, min(max(shards, total // 250000 + 1), len(cases)))   # ~ 60-70 k events (25-30 MB) per shard
     files = [os.path.join(wd, "cases_%03d.ndjson" % i) for i in range(shards)]
     fh = [open(f, "w") for f in files]
     load = [0] * shards
